@@ -183,6 +183,49 @@ def main(tier):
                     run.violation("macro-leaks-into-next-evaluation", rep)
                 else:
                     run.nontriv(("seq", cfg, p1, probe))
+        # ---------- configuration stability: whatever earlier inputs did (including failing ones, default-sides expressions that
+        #            fail, budgets that run out, st lists), the host's switches are what they were and a later input is judged by them
+        DEXPR = ["20", "面数", "1/0", "面数 + 0", "d4"]
+        FIRST = ["d", "3d + 1", "29950d1+d", "&面数 = 1/0", "面数 = 'x'", "&面数 = 面数", "d优势", "func f(){ d }; f()", "^sta=1 b=(3d)", "^sta=1 b=(1|2)",
+                 "^sta=1 b=(`{% if 1 { 2 } %}`)", "^st力量=d 敏捷=(2d)", "1 +", "(", "#EnableDice wod true 2a5", "x = d; x", "`{d}`", "[d, d, (]"]
+        PROBE = ["if 1 { 2 }", "3d", "1|2", "func f(){1}; f()", "i=0; while i<2 { i=i+1 }; i", "2a5", "b2", "`{% if 1 {3} %}`", "5 & 3", "d"]
+        seqs2 = []
+        for _ in range(700 if tier == "thorough" else 200):
+            flags = "".join(x for x in "SNB" if r.random() < 0.6)
+            fam = r.choice(["", "w", "c", "wcfd"])
+            parts = [p_ for p_ in [fam, ",".join(flags)] if p_]
+            if r.random() < 0.7:
+                parts.append("D" + hx(r.choice(DEXPR)))
+            cfg = ",".join(parts) or "-"
+            first = [r.choice(FIRST) for _ in range(r.randint(1, 3))]
+            seqs2.append((cfg, first, r.choice(PROBE)))
+        l1 = [f"runseq {cfg},L30000 {9:032x} " + " ".join(hx(x) for x in first) + f" {hx(probe)}" for cfg, first, probe in seqs2]
+        l2 = [f"runseq {cfg},L30000 {9:032x} {hx(probe)}" for cfg, first, probe in seqs2]
+        o1 = go_child(line_timeout=20).run(l1)
+        o2 = go_child(line_timeout=20).run(l2)
+        for (cfg, first, probe), a, b in zip(seqs2, o1, o2):
+            run.evaluations += 1
+            run.count("config-stability.cases")
+            rep = {"cfg": cfg, "earlier_inputs": first, "probe": probe, "after": a[:500], "fresh": b[:400]}
+            if " cfg=" not in a or " cfg=" not in b:
+                run.count("config-stability.crashed")
+                continue
+            if a.rsplit(" cfg=", 1)[-1] != b.rsplit(" cfg=", 1)[-1]:
+                run.violation("earlier-input-changed-vm-config", rep)
+                continue
+            pa, pb = a.split(" | "), b.split(" | ")
+            fa, fb = pa[len(first)].split(), pb[0].split()
+            # the probe's acceptance (and what it left unparsed) is decided by the switches alone; variables the earlier inputs set
+            # can change its run-time outcome, so only ok/err of PARSING is compared: a parse error names a rule and a position
+            def parse_rejected(t):
+                return t.startswith("err ") and re.search(r"^err \S*3a", t) is not None
+            ra, rb = re.search(r" r=(\S+)", pa[len(first)]), re.search(r" r=(\S+)", pb[0])
+            if (fa[:1] == ["ok"]) != (fb[:1] == ["ok"]) and "面数" not in probe and not any(("面数" in x or "x =" in x) for x in first) and probe != "d":
+                run.violation("earlier-input-changes-what-a-later-input-may-do", rep)
+            elif ra and rb and ra.group(1) != rb.group(1):
+                run.violation("earlier-input-changes-what-a-later-input-may-do", rep)
+            else:
+                run.nontriv(("cfgstab", cfg, tuple(first), probe))
         run.sample({"stream": "peg", "line": lines[0][:200], "out": g_out[0][:200]})
     return run.finish(
         trusted=["Lean 4.33 kernel (incl. kernel evaluation `decide +kernel` of the static check; no native_decide)", "axioms: propext, Classical.choice, Quot.sound",
@@ -191,5 +234,7 @@ def main(tier):
                  "that the VM rolls a family only by executing that family's opcodes (rollvm.go dispatch), and that code reaches a VM only through Parse "
                  "or a stored function / computed value body (known finding C09-body-compiled-under-macro)"],
         rule="identifier / number mixes around a b c f p d (52 atoms x 17 separators), structural corpus, generated and mutated programs, 12% with an "
-             "#EnableDice macro, x 12 family subsets x DisableStmts/NDice/BitwiseOp subsets; macro-locality sequences",
+             "#EnableDice macro, x 12 family subsets x DisableStmts/NDice/BitwiseOp subsets; macro-locality sequences; configuration-stability "
+             "sequences (1-3 earlier inputs incl. failing default-sides expressions, exhausted budgets, st lists, macros, then a probe) under "
+             "DisableStmts/NDice/BitwiseOp x default-sides expressions",
         assumptions=["custom dice parsers are not registered (C17's subject)"])
